@@ -424,7 +424,7 @@ func (m *Machine) unwrapErr(c *frame, e Iface) (Iface, bool) {
 	if e.T == nil {
 		return Iface{}, false
 	}
-	f := m.eng.prog.LookupMethod(e.T, nil, "Unwrap")
+	f := m.findMethod(e.T, "Unwrap")
 	if f == nil {
 		return Iface{}, false
 	}
@@ -449,7 +449,7 @@ func stubErrorsIs(m *Machine, c *frame, fn *ssa.Function, a []Value) Value {
 				return sym.True()
 			}
 		}
-		if f := m.eng.prog.LookupMethod(err.T, nil, "Is"); f != nil {
+		if f := m.findMethod(err.T, "Is"); f != nil {
 			r := m.term(m.call(c, 0, f, []Value{err.V, target}))
 			if m.branch(r) {
 				return sym.True()
@@ -720,4 +720,15 @@ func init() {
 	}
 	natives[pe+".WithStack"] = func(m *Machine, c *frame, fn *ssa.Function, a []Value) Value { return a[0] }
 	natives[pe+".Cause"] = func(m *Machine, c *frame, fn *ssa.Function, a []Value) Value { return a[0] }
+}
+
+// findMethod returns the method called name of type T, or nil.
+func (m *Machine) findMethod(T types.Type, name string) *ssa.Function {
+	ms := m.eng.prog.MethodSets.MethodSet(T)
+	for i := 0; i < ms.Len(); i++ {
+		if ms.At(i).Obj().Name() == name {
+			return m.eng.prog.MethodValue(ms.At(i))
+		}
+	}
+	return nil
 }
